@@ -273,6 +273,25 @@ def body_becke(case, ctx):
     ctx.close(w_m, per[:, a0], tol_r, "rigid-motion-atom-weight", f"atom {a0}")
     ctx.info["err_def"] = float(np.max(np.abs(call - ref_seg) / tol_def)) if n else 0.0
 
+    # ---- points on an integer lattice handed over as an integer-dtype array: the same points as those floats --------
+    if n:
+        lat = np.rint(pts).astype(np.int32 if case["dseed"] % 2 else np.int64)
+        latf = lat.astype(float)
+        if not np.any(np.all(latf[:, None, :] == at[None, :, :], axis=2)):  # keep lattice points off the nuclei
+            for route in ("compute_atom_weight", "generate_weights", "call"):
+                try:
+                    if route == "compute_atom_weight":
+                        wi, wf = bw.compute_atom_weight(lat, at, atnums, a0), bw.compute_atom_weight(latf, at, atnums, a0)
+                    elif route == "generate_weights":
+                        wi, wf = bw.generate_weights(lat, at, atnums, pt_ind=idx), bw.generate_weights(latf, at, atnums, pt_ind=idx)
+                    else:
+                        wi, wf = bw(lat, at, atnums, idx), bw(latf, at, atnums, idx)
+                except (TypeError, ValueError):
+                    ctx.cls("integer-points:rejected-loudly")
+                    continue
+                ctx.close(wi, wf, 2 * tol_id, "integer-dtype-points", f"{route} on integer-dtype lattice points vs the same points as float64 (M={m})")
+            ctx.cls("integer-points:compared")
+
 
 def _compute_weights_select(bw, pts, at, atnums, select, idx, per, want, tol_id, ctx):
     """compute_weights(select=list, pt_ind=...) - documented word for word like generate_weights."""
